@@ -1,4 +1,68 @@
-// engine K harnesses for module hook 'additive_share' (included under cfg(kani) by /repo)
+// engine K — secret_sharing/replicated/semi_honest/additive_share.rs (property C08: replicated-share arithmetic
+// agrees with the plain field operations). complete-for-instance: Fp32BitPrime and Fp61BitPrime, N = 1.
+use super::*;
+use crate::ff::{Fp32BitPrime, Fp61BitPrime};
+
+macro_rules! share_ops {
+    ($name:ident, $f:ty) => {
+        /// every linear operation acts componentwise with the field operation, so reconstruction
+        /// (sum of the three helpers' left components) is a homomorphism
+        #[kani::proof]
+        #[kani::stub_verified(<$f as std::ops::Add>::add)]
+        #[kani::stub_verified(<$f as std::ops::Sub>::sub)]
+        #[kani::stub_verified(<$f as std::ops::Neg>::neg)]
+        fn $name() {
+            let (al, ar, bl, br): ($f, $f, $f, $f) = (kani::any(), kani::any(), kani::any(), kani::any());
+            let a = AdditiveShare::<$f>::new(al, ar);
+            let b = AdditiveShare::<$f>::new(bl, br);
+            kani::cover!(true);
+            assert!(a.left() == al && a.right() == ar && a.as_tuple() == (al, ar));
+            let s = &a + &b;
+            assert!(s.left() == al + bl && s.right() == ar + br);
+            assert!(a.clone() + b.clone() == s && a.clone() + &b == s && &a + b.clone() == s);
+            let d = &a - &b;
+            assert!(d.left() == al - bl && d.right() == ar - br);
+            assert!(a.clone() - b.clone() == d && a.clone() - &b == d && &a - b.clone() == d);
+            let n = -&a;
+            assert!(n.left() == -al && n.right() == -ar && -a.clone() == n);
+            let mut x = a.clone();
+            x += &b;
+            assert!(x == s);
+            let mut y = a.clone();
+            y += b.clone();
+            assert!(y == s);
+            let mut z = a.clone();
+            z -= &b;
+            assert!(z == d);
+            let mut w = a.clone();
+            w -= b.clone();
+            assert!(w == d);
+            assert!(AdditiveShare::<$f>::from((al, ar)) == a);
+            assert!(AdditiveShare::<$f>::ZERO.left() == <$f as SharedValue>::ZERO);
+        }
+    };
+}
+share_ops!(c08_share_linear_fp32, Fp32BitPrime);
+share_ops!(c08_share_linear_fp61, Fp61BitPrime);
+
+macro_rules! share_scale {
+    ($name:ident, $f:ty) => {
+        /// multiplication by a public scalar acts componentwise
+        #[kani::proof]
+        #[kani::stub_verified(<$f as std::ops::Mul>::mul)]
+        #[kani::solver(z3)]
+        fn $name() {
+            let (al, ar, c): ($f, $f, $f) = (kani::any(), kani::any(), kani::any());
+            let a = AdditiveShare::<$f>::new(al, ar);
+            kani::cover!(true);
+            let m = &a * &c;
+            assert!(m.left() == al * c && m.right() == ar * c);
+            assert!(a.clone() * c == m && a.clone() * &c == m && &a * c == m);
+        }
+    };
+}
+share_scale!(c08_share_scale_fp32, Fp32BitPrime);
+share_scale!(c08_share_scale_fp61, Fp61BitPrime);
 
 #[cfg(test)]
 include!(concat!(env!("IPA_VERIF_DIR"), "/.build/playback/additive_share.rs"));
